@@ -30,6 +30,9 @@ CLAIMED = {
  "C03": ("sibling cross-checking over typed AST/SSA: dispatch dominance, scalar-multiplication skeleton normal forms, operation-DAG duality, masked-scan shape, clone equality",
          "Decides structural necessary conditions of 'every scalar-multiplication routine gives the true group result, independent of algorithm/table/representation': every call edge into the vector-only back end is dominated by the supportsVectorizedEdwards test (pairs of vector/generic twins are discovered from the dispatch switches); the two twins of each of the 15 pairs have equal normalised skeletons (recoding and width, loop bounds, doublings between digit uses, guard/operation/lookup polarity per digit, table type); Horner-shape rules per algorithm (radix-16: 4 doublings, all 64 digits; NAF: 1 doubling, positions 255..0; Pippenger: w doublings per column, 2^(w-1) buckets); a width-w NAF only indexes tables with at least 2^(w-2) entries; lookup-table constructors start at P and step by P / 2P for the right count; each Sub* mixed-addition formula is the Add* twin under the y+x/y-x, Z/T substitution; every constant-time Lookup scans all entries with selector j for entry j-1; the four Pornin prologues and the 512/384-bit lattice passes are clones. The serial twins are never executed by the test-suite on an AVX2 machine. The group law itself (formulas, assembly, tables computing point addition) is not decided.",
          "DESIGN.md §3 E-SIB, §4 C03", "the tested twin is the oracle for the untested one; the numeric group law is not decided", ["esib"]),
+ "C09": ("finite predicate abstraction with uninterpreted terms (sibling comparison against the single-verification specification), symbolic single-iteration loop summaries",
+         "Decides that the siblings of single verification are the same Boolean function of the same conditions: verifyExpandedWithOptionsNoPanic (~900 paths) and the batch verifier's per-entry admission entry.doInit (~1900 paths, both key forms) are compared path by path, in Kleene logic, with the SAME specification formulas as C01 instantiated for the cached key predicates, and must use the specified equation / stored fields (hram from the same hash sequence, -A, R, S, expandedA, wantCofactorless, signature); NewExpandedPublicKey must cache exactly the DT-1 predicates of the same bytes; checkExpandedPublicKey is DT-1 over the cached fields; every Add* appends the entry and ORs anyInvalid / anyCofactorless / anyNotExpanded from that entry on every path and Reset clears them; VerifyBatchOnly aborts exactly on empty / anyInvalid / anyCofactorless; the serial fallback of Verify (one symbolic iteration) skips exactly the entries that cannot be valid, selects the equation by (expanded?, cofactorless?) with the same operand roles, and folds the conjunction starting from not anyInvalid; the caching verifier looks up, expands and stores under the same 32 bytes and delegates unchanged. The multiscalar batch equation and LRU eviction order are not decided.",
+         "DESIGN.md §3 E-DT, §4 C09", "specifications in props/c09*.go share the formulas of props/c01.go; loop summaries describe one iteration for an arbitrary count", ["edt", "emod"]),
 }
 
 PENDING_REASON = "check under construction (DESIGN.md section 7 build order); not claimed yet"
